@@ -266,7 +266,7 @@ def ill_formed(draw):
             ("States.ArrayGetItem", [P("$.e"), L(0)]), ("States.ArrayGetItem", [S("abc"), L(0)]), ("States.ArrayLength", [S("abc")]),
             ("States.ArrayLength", [P("$.obj")]), ("States.ArrayUnique", [L(3)]), ("States.Base64Encode", [L(3)]), ("States.Base64Decode", [L(3)]),
             ("States.Base64Decode", [S("!!!")]), ("States.Hash", [S("a"), S("CRC32")]), ("States.Hash", [L(1), S("MD5")]), ("States.Hash", [P("$.obj"), S("MD5")]),
-            ("States.JsonMerge", [P("$.obj"), P("$.obj2"), L(True)]), ("States.JsonMerge", [P("$.obj"), L(3), L(False)]), ("States.JsonMerge", [S("a"), P("$.obj"), L(False)]),
+            ("States.JsonMerge", [P("$.obj"), P("$.obj2"), L(True)]), ("States.JsonMerge", [P("$.obj"), P("$.obj2"), L(0)]), ("States.JsonMerge", [P("$.obj"), P("$.obj2"), P("$.z")]), ("States.JsonMerge", [P("$.obj"), L(3), L(False)]), ("States.JsonMerge", [S("a"), P("$.obj"), L(False)]),
             ("States.MathAdd", [S("1"), L(2)]), ("States.MathAdd", [L(1.5), L(2)]), ("States.MathAdd", [L(True), L(2)]), ("States.MathRandom", [S("a"), L(3)]),
             ("States.StringSplit", [L(1), S(",")]), ("States.StringSplit", [S("a,b"), L(1)]), ("States.StringToJson", [S("{not json")]),
             ("States.StringToJson", [L(3)]), ("States.Format", [L(3)]), ("States.Format", []), ("States.Format", [S("{} {}"), S("only-one")]),
